@@ -130,7 +130,7 @@ pub fn run(case: &serde_json::Value, out: &mut String) {
                     },
                 },
                 "fit" | "override" => match (pick(&all, &op[1]), pick(&all, &op[4])) {
-                    (Some(p), Some(r)) if p != r && segment_at(&s, p, &op[2], &op[3]).is_some() => {
+                    (Some(p), Some(r)) if segment_at(&s, p, &op[2], &op[3]).is_some() => {
                         let (a, b) = segment_at(&s, p, &op[2], &op[3]).unwrap();
                         desc = format!("{} {} {} {}", vid(p), nid(a), nid(b), vid(r));
                         if kind == "fit" {
